@@ -21,6 +21,8 @@ def expand (t : String) : Option Bytes :=
 
 structure Spec where
   raw : Bool
+  /-- no unilateral data handler installed: unilateral data is not observed -/
+  noh : Bool
   tag : String
   kind : Kind
   cmdKind : String
@@ -28,17 +30,18 @@ structure Spec where
 def stripPrefix (s pre : String) : Option String :=
   if s.startsWith pre then some (s.drop pre.length).toString else none
 
-/-- `[raw+][sel+]name[:arg]` -/
+/-- `[raw+][noh+][sel+]name[:arg]` -/
 def parseSpec (s : String) : Option Spec :=
   let (raw, s) := match stripPrefix s "raw+" with | some r => (true, r) | none => (false, s)
+  let (noh, s) := match stripPrefix s "noh+" with | some r => (true, r) | none => (false, s)
   let (tag, s) := match stripPrefix s "sel+" with | some r => ("T2", r) | none => ("T1", s)
   let (name, arg) := match splitOnChar s ':' with
     | [] => ("", "")
     | n :: rest => (n, joinWith ":" rest)
   let (uid, base) := match stripPrefix name "uid" with | some b => (true, b) | none => (false, name)
-  let mk (k : Kind) : Option Spec := some { raw := raw, tag := tag, kind := k, cmdKind := base }
+  let mk (k : Kind) : Option Spec := some { raw := raw, noh := noh, tag := tag, kind := k, cmdKind := base }
   match base with
-  | "search" | "esearch" => some { raw := raw, tag := tag, kind := .search uid, cmdKind := "search" }
+  | "search" | "esearch" => some { raw := raw, noh := noh, tag := tag, kind := .search uid, cmdKind := "search" }
   | "sort" => mk .sort
   | "thread" => mk .thread
   | "fetch" =>
@@ -66,7 +69,7 @@ def handleStream (id kind spec tmpl obs : String) : String :=
         match o.dec with
         | .unmod => (false, "unmodelled")
         | .nofuel => (true, "model-out-of-fuel")
-        | _ => (true, s!"{o.cmd}|{decStr o.dec}|{o.data}|{o.uni}")
+        | _ => (true, s!"{o.cmd}|{decStr o.dec}|{o.data}|{if sp.noh then "-" else o.uni}")
     if obs == "crash" then s!"{id}\t{boolStr (!modelled)}\tfail:process-fatal\t{mstr.take 300}"
     else if obs == "timeout" then s!"{id}\t{boolStr (!modelled)}\tfail:no-termination\t{mstr.take 300}"
     else
